@@ -240,9 +240,51 @@ let run_analyze (dump : string) (scan : string) (paths : string) (checks : strin
             let (f, line, col) = locate p pos in
             Printf.printf "D %s %s %d %d %s %s\n" (hex_encode p.lid) (hex_encode f) line col (string_of_chars d.d_code) (hex_encode (string_of_chars d.d_msg))) ds) pkgs
 
+(* ---------------- regex: <which> <hex string> -> submatch indices ---------------- *)
+let run_regex () =
+  try
+    while true do
+      let line = input_line stdin in
+      match fields line with
+      | [w; h] ->
+        let s = hex_decode h in
+        (match x_re_find (nat_of_int (int_of_string w)) (cs s) with
+         | None -> print_endline "-"
+         | Some caps ->
+           (* whole match: group 0 is not recorded by the matcher; it spans from the search start to the end reached:
+              all seven expressions are anchored at both ends, so it is 0..len *)
+           let ngroups = match int_of_string w with 0 -> 3 | 1 | 5 | 6 -> 1 | _ -> 0 in
+           let get n = let rec go = function [] -> None | (k, (a, b)) :: r -> if int_of_nat k = n then Some (int_of_nat a, int_of_nat b) else go r in go caps in
+           let parts = ref [string_of_int 0; string_of_int (String.length s)] in
+           for g = 1 to ngroups do
+             (match get g with Some (a, b) -> parts := !parts @ [string_of_int a; string_of_int b] | None -> parts := !parts @ ["-1"; "-1"])
+           done;
+           print_endline (String.concat "," !parts))
+      | _ -> print_endline "E"
+    done
+  with End_of_file -> ()
+
+(* ---------------- annots <dump> <scan> <paths> <checks>: annotations and ignore markers per package ---------------- *)
+let run_annots (dump : string) (scan : string) (paths : string) (checks : string) =
+  let cfg = { scan_tests = (scan = "1"); exclude_paths = unhex_list paths; exclude_checks = unhex_list checks } in
+  let pkgs = List.map conv_pkg (parse_sexps (read_file dump)) in
+  List.iter (fun p ->
+      Printf.printf "A %s %s\n" (hex_encode p.lid) (hex_encode (ann_summary (x_read_all cfg p.lpkg)));
+      match x_ignore_ops cfg p.lpkg with
+      | None -> Printf.printf "P %s\n" (hex_encode p.lid)
+      | Some ops ->
+        let ms = List.filter_map (function
+            | OpAdd (codes, s, e) ->
+              let (f1, l1, c1) = locate p (int_of_z s) and (_, l2, c2) = locate p (int_of_z e) in
+              Some (Printf.sprintf "%s:%s:%d:%d:%d:%d" (String.concat "," (List.map string_of_chars codes)) (Filename.basename f1) l1 c1 l2 c2)
+            | OpGlobal _ -> None) ops in
+        Printf.printf "I %s %s\n" (hex_encode p.lid) (hex_encode (String.concat ";" ms))) pkgs
+
 let () =
   match Array.to_list Sys.argv with
   | _ :: "ignoreset" :: _ -> run_ignoreset ()
+  | _ :: "regex" :: _ -> run_regex ()
+  | _ :: "annots" :: dump :: scan :: paths :: checks :: _ -> run_annots dump scan paths checks
   | _ :: "analyze" :: dump :: scan :: paths :: checks :: _ -> run_analyze dump scan paths checks
   | _ :: "config" :: _ -> run_config ()
   | _ :: "reporter" :: _ -> run_reporter ()
